@@ -2,7 +2,7 @@
 
 Inputs: scripts of 2-4 generated statements in which later statements read earlier targets — bounded-exhaustive over
 chain shape (linear 2/3/4, diamond, fan-in by join, fan-in by union, re-write of the intermediate, two independent joins = the D11
-shape) x column-overlap pattern of every consumer (all consumed / some dangling / renamed / star) x provider (none / dict provider
+shape, late repair of an unqualified column from the graph) x column-overlap pattern of every consumer (all consumed / some dangling / renamed / star) x provider (none / dict provider
 knowing the source tables / dict provider knowing one source and a STALE definition of an intermediate) x schema qualification;
 statement bodies (kinds, expressions, aliases, qualification of column references, WHERE) are seeded random.
 
@@ -36,7 +36,7 @@ import sqlcheck
 import sqlimpl
 from common import Check, Driver, Infra, canon_json, log
 
-SHAPES = ["linear2", "linear3", "linear4", "diamond", "fanin_join", "fanin_union", "rewrite", "two_joins"]
+SHAPES = ["linear2", "linear3", "linear4", "diamond", "fanin_join", "fanin_union", "rewrite", "two_joins", "late_by_graph"]
 PATTERNS = ["all", "dangling", "renamed", "star"]
 PROVIDERS = ["none", "sources", "partial_stale"]
 
@@ -195,6 +195,11 @@ def build_script(shape, pattern, provider, schema, rng):
         st([("src1", ["a", "k"]), ("src2", ["k"])], "mid1", "all", qualify="none")
         st([("src3", ["a", "k"]), ("src4", ["k"])], "mid2", "all", qualify="none")
         st([("mid1", ["a", "k"])], "tgt", pattern)
+    elif shape == "late_by_graph":
+        # statement 1 names columns of a source table with a qualifier; statement 2 selects the same columns UNQUALIFIED from a join
+        # that includes that source: the multi-candidate column is repaired late, from the graph (holders.py:416-421)
+        st([("src1", SRC["src1"])], "mid1", "all", qualify=rng.choice(["name", "alias"]))
+        st([("src1", ["a", "b"]), ("src2", ["d"])], "tgt", pattern, qualify="none")
     else:
         raise ValueError(shape)
     md = None
@@ -384,6 +389,9 @@ def oracle_prepare(sqls, dialect, metadata, full, stmts=None):
             per_stmt_reg.append(None)
     if pending is not None:
         out["fails"].append("a session registration could not be attributed to a statement in order: " + json.dumps(pending))
+    for r in regs:
+        if any(c == "*" for c in r[2]):
+            out["fails"].append("a wildcard is registered as a column of " + r[1] + ": " + json.dumps(r[2]))
     out["registered"] = per_stmt_reg
     return out, cases
 
@@ -629,7 +637,7 @@ def run(chk):
                         "runner loop, the path enumeration and graph composition"]
     return chk.finish(
         level="proof",
-        rule="chain shape (8) x consumer column pattern (4) x provider (3) x schema qualification (2) fully enumerated (x3 bodies in "
+        rule="chain shape (9) x consumer column pattern (4) x provider (3) x schema qualification (2) fully enumerated (x3 bodies in "
              "thorough), statement bodies seeded random; each script under the listed dialects: paths/roles/session events vs the Lean "
              "model, composition + session oracle on the implementation alone, C06 monitor. non-trivial = some path crosses an "
              "intermediate table (>= 2 hops); distinct by (SQL texts, dialect, metadata)",
